@@ -115,12 +115,53 @@ class G:
             out[pos] = v
         return out, "rank%d/%s" % (rk, style)
 
-    def unit_tri_rows(self, n, upper, garbage=True):
+    def tri_mask_rows(self, n, style):
+        """structure of the strict triangle: a list of n masks over the columns 0..n-1 (ANDed with the random entries)"""
         r = self.rng
+        full = (1 << n) - 1
+        if style == "sparse":                      # 0..3 entries per row
+            out = []
+            for _ in range(n):
+                v = 0
+                for _ in range(r.randint(0, 3)):
+                    v |= 1 << r.randrange(n)
+                out.append(v)
+            return out
+        if style == "few":                         # identity plus at most 5 entries in all
+            out = [0] * n
+            for _ in range(r.randint(0, 5)):
+                out[r.randrange(n)] |= 1 << r.randrange(n)
+            return out
+        if style == "colsparse":                   # entries only in a sparse set of columns (runs of 1..24 columns)
+            cols, c = 0, r.randrange(0, 40)
+            while c < n:
+                run = r.randint(1, 24)
+                cols |= ((1 << run) - 1) << c
+                c += run + r.randint(8, 70)
+            return [cols & full] * n
+        if style == "band":
+            b = r.choice([1, 2, 5, 33, 70])
+            return [(((1 << (2 * b + 1)) - 1) << max(0, i - b)) >> max(0, b - i) & full if i < b else (((1 << (2 * b + 1)) - 1) << (i - b)) & full
+                    for i in range(n)]
+        if style == "rowsparse":                   # most rows empty, a few dense
+            return [full if r.random() < 0.12 else 0 for _ in range(n)]
+        return [full] * n
+
+    TRI_STYLES = ["dense"] * 11 + ["sparse", "sparse", "few", "few", "colsparse", "colsparse", "band", "rowsparse", "rowsparse"]
+
+    def unit_tri_rows(self, n, upper, garbage=True, style=None):
+        """unit triangular; the strict triangle random within a structure (dense / sparse / identity plus a few entries /
+        sparse column set / band / few dense rows: data-dependent shortcuts of the table-driven kernels see rows and
+        blocks without entries); the other triangle garbage (never to be read) or zero"""
+        r = self.rng
+        style = style or r.choice(self.TRI_STYLES)
+        self.last_tri_style = style
+        masks = self.tri_mask_rows(n, style)
         out = []
         for i in range(n):
             v = r.getrandbits(n) if garbage else 0
-            rnd = r.getrandbits(n)
+            rnd = r.getrandbits(n) if style != "sparse" and style != "few" else (1 << n) - 1
+            rnd &= masks[i]
             if upper:
                 keep = rnd >> (i + 1) << (i + 1)          # strict upper random
                 low = v & ((1 << i) - 1) if garbage else 0  # garbage below diagonal
